@@ -55,6 +55,7 @@ struct Budget
     std::string oracle, what;
     uint64_t deadline_step;
     bool active;
+    uint64_t span;
 };
 
 struct Kernel
@@ -513,9 +514,17 @@ check_budgets()
 int
 expect_progress(const char* oracle, const char* what, uint64_t steps_)
 {
-    Budget b{ K.next_budget++, oracle, what, K.step + steps_, true };
+    Budget b{ K.next_budget++, oracle, what, K.step + steps_, true, steps_ };
     K.budgets.push_back(b);
     return b.handle;
+}
+
+void
+progress_kick()
+{
+    for (auto& b : K.budgets)
+        if (b.active)
+            b.deadline_step = K.step + b.span;
 }
 
 void
@@ -786,6 +795,7 @@ trampoline(void* p)
         t->fn();
     // exit: wake joiners
     t->state = T_DONE;
+    progress_kick();
     for (Thread* o : K.threads)
         if (o->state == T_BLK_JOIN && o->wait_tid == t->id)
             o->state = T_RUNNABLE;
